@@ -216,3 +216,67 @@ PROPS["C19"] = {
     "assumptions": ["the snapshot walker and the marker strings are the trusted base", "writers re-open after every attempt (well-behaved optimistic clients)"],
     "design_ref": "DESIGN.md section 3, C19",
 }
+
+_GEN_RULE = ("programs: (a) systematic single-feature cells - every binary operator x every pair of the 10 numeric types x boundary operands (min, min+1, -1, 0, 1, 2, max-1, max; "
+             "reals 0, +-1, near-max, tiny; sampled in quick, complete in thorough), unary minus, FOR over every integer control type at the type limits incl. step 0, CASE on every integer "
+             "selector type, assignment / array element / struct field / function parameter / return / FB input / FB output for every (declared type, assignable source type) pair, and "
+             "12 feature-switch cells (case variation, untyped literals, RETURN in PROGRAM, fb() without arguments, subrange overflow, enum CASE, negative exponent, recursion, TIME, bit "
+             "ops, strings); (b) every .st file under /repo that builds stand-alone; (c) seeded type-directed random programs (<= 3 functions, <= 3 FB types with state, arrays, structs, "
+             "IF/CASE/FOR/WHILE/REPEAT/EXIT/CONTINUE/RETURN, short-circuit guard patterns, FOR bounds over variables the body changes, loops ending at the type limit, direct widening "
+             "assignments; typed literals and exact-case identifiers unless a feature switch says otherwise), 3-5 cycles with boundary-biased inputs and clock steps. distinct = (feature "
+             "set, program hash bucket, final outcome); non-trivial = the compiler accepted the program and >= 1 statement executed (hook H1)")
+
+PROPS["C01"] = {
+    "engine": "c01", "args": {"mode": "c01"},
+    "level": "exploration",
+    "technique": "outcome-class / frame-stack / logical-step monitors over generated and corpus ST programs in an overflow-checked build on a 2 MiB stack (panics caught, aborts attributed by journal)",
+    "quick": {"shards": 8, "budget_s": 30, "watchdog_s": 900},
+    "thorough": {"shards": 16, "budget_s": 420, "watchdog_s": 3600},
+    "floor": {"quick": 5000, "thorough": 50000},
+    "require_counters": {"quick": {"programs_executed": 8000, "cycles_executed": 20000}, "thorough": {"programs_executed": 100000}},
+    "rule": _GEN_RULE,
+    "level_text": "Every accepted program runs 3-5 cycles in the real runtime built with overflow checks and debug assertions; per cycle the monitor requires outcome in {Ok} u {DivisionByZero, "
+                  "ModuloByZero, Overflow, IndexOutOfBounds, NullReference, ForStepZero, DateTimeRange, ExecutionTimeout}, an empty frame stack, no panic; an ExecutionTimeout counts as "
+                  "non-termination only when the statement counter (hook H1) exceeds the program's static step bound.",
+    "level_note": "Programs that call ASSERT_* may fail their assertions. Only programs for which TestHarness::from_source returns Ok count as accepted.",
+    "assumptions": ["10 s wall-clock execution deadline per cycle is only a backstop; termination is judged on counted statements"],
+    "design_ref": "DESIGN.md section 3, C01",
+}
+
+PROPS["C02"] = {
+    "engine": "c01", "args": {"mode": "c02"},
+    "level": "exploration",
+    "technique": "differential runtime monitor: every variable after every cycle and every fault class compared with an independently written IEC reference evaluator over the generator's own AST",
+    "quick": {"shards": 8, "budget_s": 30, "watchdog_s": 900},
+    "thorough": {"shards": 16, "budget_s": 420, "watchdog_s": 3600},
+    "floor": {"quick": 5000, "thorough": 50000},
+    "require_counters": {"quick": {"variables_compared": 1000000, "faults_agreed": 3000, "cycles_compared": 20000}, "thorough": {"variables_compared": 20000000}},
+    "rule": "seeded type-directed random programs of the C02 core grammar (see DESIGN C02): elementary-type expressions over one signedness family per operation, assignments incl. implicit "
+            "widening, IF/CASE/FOR/WHILE/REPEAT/EXIT/CONTINUE/RETURN, arrays, structs, user functions (positional and named calls), FB instances with state and omitted inputs, "
+            "short-circuit guard patterns, FOR bounds evaluated once, loops ending at the type limit; 3-5 cycles of boundary-biased inputs. distinct = (feature set, program hash bucket, "
+            "final outcome); non-trivial = accepted and >= 1 statement executed",
+    "level_text": "The reference (harness/src/refsem.rs, about 450 lines, shares no code with the repo) evaluates the generator AST with exact integers in the promoted operand type, faults on "
+                  "overflow and division by zero, truncating division, MOD with the dividend's sign, IEEE single/double reals with non-finite results faulting, short-circuit AND/OR, FOR test "
+                  "before each iteration, by-value inputs, persistent FB state. After every cycle every Main variable, array element, struct field and FB member is compared by declared type "
+                  "(numeric value / bit pattern), and the fault class must agree.",
+    "level_note": "Excluded from the C02 grammar (still run by C01): mixed signedness, '**', conversions and standard functions, untyped literals, TIME arithmetic, strings, VAR_IN_OUT.",
+    "assumptions": ["the reference evaluator is the trusted base", "value of a FOR control variable after the loop is not compared (re-assigned by the generated program)"],
+    "design_ref": "DESIGN.md section 3, C02",
+}
+
+PROPS["C03"] = {
+    "engine": "c01", "args": {"mode": "c03"},
+    "level": "exploration",
+    "technique": "storage-wide invariant hook: after every cycle every value reachable from a program instance is checked against the declared TypeId of the runtime's own POU definitions (tag, subrange bounds, array/struct shape)",
+    "quick": {"shards": 8, "budget_s": 30, "watchdog_s": 900},
+    "thorough": {"shards": 16, "budget_s": 420, "watchdog_s": 3600},
+    "floor": {"quick": 5000, "thorough": 50000},
+    "require_counters": {"quick": {"type_walks": 20000}, "thorough": {"type_walks": 200000}},
+    "rule": _GEN_RULE,
+    "level_text": "After every cycle the monitor walks every program instance: each variable's stored Value must carry the tag of its declared type after alias/subrange resolution, lie inside the "
+                  "subrange, and arrays/structs/FB instances are descended recursively using FunctionBlockDef/ClassDef declarations. Generated programs are role-partitioned (assign, array "
+                  "element, struct field, parameter, FB input/output/state, FOR control) so a drifting slot identifies the write path.",
+    "level_note": "Configuration-level globals are not walked (their declared types are not public); I/O latching is covered by C07's typed comparisons, debugger writes by C18's probe runtime.",
+    "assumptions": ["declared types are read from the runtime's own lowered definitions (ProgramDef.vars / Param.type_id + TypeRegistry)"],
+    "design_ref": "DESIGN.md section 3, C03",
+}
